@@ -1045,7 +1045,7 @@ def block_phys(tr, box, b):
             for o in one:
                 m = o["msg"]
                 a, x = R.split_sections(m)
-                qs += ["%s:%d:%d" % (W.name_tok(q.name), q.type, raw(q)) for q in m._questions]
+                qs += ["%s:%d:%d" % (W.name_tok_labels(q.name), q.type, raw(q)) for q in m._questions]
                 ans += [(tr.uni.id(r), r.type, raw(r)) for r in a]
                 add += [(tr.uni.id(r), r.type, raw(r)) for r in x]
             rs = lambda l: ",".join("%d.%d.%d" % x for x in sorted(l)) or "-"
